@@ -74,7 +74,7 @@ pub fn run_program(sim: &Sim<Event>, uni: &Arc<UniCtx>, c: &Cmd) {
 pub fn expressible(c: &Cmd) -> bool {
     fn stmts_ok(t: &[Stmt]) -> bool {
         t.iter().all(|s| match s {
-            Stmt::Join(_) | Stmt::AbortT(_) | Stmt::Export(_) | Stmt::JoinBig(_) => false,
+            Stmt::Join(_) | Stmt::AbortT(_) | Stmt::Export(_) | Stmt::JoinBig(_) | Stmt::AbortCmd(_) => false,
             Stmt::StreamLoop(_, b) | Stmt::Spawn(b) => stmts_ok(b),
             Stmt::JoinN(bs) | Stmt::Select(bs) => bs.iter().all(|b| stmts_ok(b)),
             _ => true,
